@@ -247,10 +247,14 @@ def x_case(ctx, case):
                 elif spec["form"] == "reason":
                     want_details = {"reason": spec["reason"].encode("utf8")}
                 got_details = None if call["details"] is None else {n: v[1] for n, v in call["details"].items()}
+                # with no time() supplied in this run the callback carries the real clock, never a
+                # value supplied in an earlier run (all supplied values lie in 2023)
                 ok = (call["test"] == spec["id"] and call["status"] == STATUS_WORD[spec["outcome"]]
                       and call["tags"] == (cur if cur is not None else run_tags)
-                      and (start_time is None or call["start_time"] == start_time)
-                      and (now is None or call["stop_time"] == now))
+                      and (call["start_time"] == start_time if start_time is not None
+                           else call["start_time"] is not None and call["start_time"] not in H.TIMES)
+                      and (call["stop_time"] == now if now is not None
+                           else call["stop_time"] is not None and call["stop_time"] not in H.TIMES))
                 if spec["form"] == "exc":
                     ok = ok and got_details is not None and spec["token"].encode() in got_details.get("traceback", b"")
                 elif spec["form"] in ("details", "reason"):
